@@ -51,6 +51,15 @@ ODDITIES = ["\x00", "\x7f", "\ud800", "\U0010ffff", "\u0301", "\u200d", "\ufffd"
 
 
 @lru_cache(maxsize=None)
+def invisible_codepoints():
+    """Format (Cf) characters - zero-width and directional marks, soft hyphen, BOM, tags - and C1 controls: invisible in most
+    renderings, not whitespace for str.isspace()."""
+    out = [chr(c) for c in range(0x80, 0xA0) if not chr(c).isspace()]
+    out += [chr(c) for c in range(0xA0, 0x20000) if unicodedata.category(chr(c)) == "Cf"]
+    return tuple(out)
+
+
+@lru_cache(maxsize=None)
 def alphabet_quick():
     nd = nd_codepoints()
     # 40 non-ASCII decimal digits from 20 scripts: digits 0 and 9 of every third block or so
@@ -60,7 +69,7 @@ def alphabet_quick():
     for b in blocks[::step][:20]:
         digits += [b[0], b[-1]]
     chars = [chr(c) for c in range(0x20, 0x7F)] + WHITESPACE + LOOKALIKE_NONSPACE + digits
-    chars += list(upper_into_ascii()) + CONFUSABLES + ODDITIES
+    chars += list(upper_into_ascii()) + CONFUSABLES + ODDITIES + list(invisible_codepoints())
     seen, out = set(), []
     for c in chars:
         if c not in seen:
@@ -177,6 +186,20 @@ class Gen:
 
     _p_letter = 0.5
 
+    def token_bbans(self, cc, rng, tokens):
+        """BBANs in which a run of letter-capable positions spells a dictionary word (IBAN, BBAN, SEPA, NONE, NULL ...):
+        texts that look like labels or keywords to careless pre-processing."""
+        cl = self.classes(cc)
+        for tok in tokens:
+            if not tok.isalpha() or not tok.isascii():
+                continue
+            t = tok.upper()
+            for i in range(0, len(cl) - len(t) + 1):
+                if all(cl[i + j] in "ac" for j in range(len(t))) and (i == 0 or cl[i - 1] not in "ac"):
+                    b = self.bban(cc, rng)
+                    yield t, b[:i] + t + b[i + len(t):]
+                    break
+
     def iban_of(self, cc, bban):
         return cc + canonical_digits(cc, bban) + bban
 
@@ -240,6 +263,17 @@ def single_replacements(text, alphabet):
         for ch in alphabet:
             if ch != old:
                 yield i, ch, pre + ch + post
+
+
+def single_insertions(text, alphabet, positions=None):
+    """insert every alphabet character at the given positions (default: start, after 2, after 4, middle, end)."""
+    n = len(text)
+    positions = positions if positions is not None else sorted({0, 2, 4, n // 2, n})
+    for i in positions:
+        if i > n:
+            continue
+        for ch in alphabet:
+            yield i, ch, text[:i] + ch + text[i:]
 
 
 def length_variants(text, filler="0", upto=40):
